@@ -21,6 +21,7 @@ ENTRIES = [
  ("C15_extend_idempotent", "extend_idempotent", "doing it twice equals doing it once"),
  ("C15_extend_empty_simultaneity_rejected", "extend_empty_sim", ""),
  ("C15_attribute_error_only_from_leaf", "split_child_at_attribute_error_only_from_leaf", "the error protocol Concurrence.split_child_at relies on when it catches AttributeError around the call on a child: in the model that error is the answer of a leaf and of nothing else"),
+ ("C15_extend_until_attribute_error_only_from_leaf", "extend_until_attribute_error_only_from_leaf", "the same for Concurrence.extend_until, whose handler prolongs the child: the model's extend_until answers AttributeError for a leaf and for nothing else"),
 ]
 EXTRA = """Print na. Print is_leaf.
 Print divided. Print has_boundary. Print rect_row. Print extended.
